@@ -437,6 +437,7 @@ func runC01(c *Ctx) {
 	checkSourceErrorsReturned(c, "R11")
 	// R12: the count equals the bytes moved — not when the chunk offsets wrapped (shared with C12.R10)
 	c.withRule("R12", func() { checkChunkOffsetsCannotWrap(c, "R10") })
+	checkAppendStartsAtEnd(c, "R13")
 }
 
 // checkPoolDiscipline: chunks travel between the goroutines of a transfer in pooled buffers.  pool.Put(b) makes b
@@ -1000,4 +1001,98 @@ func isFillCall(cc *ssa.CallCommon) bool {
 		}
 	})
 	return ok1 && ok2
+}
+
+// checkAppendStartsAtEnd (R13): both servers of the package drop SSH_FXF_APPEND on purpose — O_APPEND cannot be
+// combined with WriteAt — and serve every WRITE at the offset it carries ("the client sends the offsets").  The
+// package's client therefore has to send the offsets an appending File means: a File opened with the append flag must
+// start at the size the server reports for the new handle.  (*Client).open must test the flag and, where it is set,
+// store the size obtained by fstat on the handle into File.offset before the File is returned; starting at 0, Write
+// overwrites the head of the file and reports success.
+func checkAppendStartsAtEnd(c *Ctx, rule string) {
+	p := c.P
+	fn := p.Func("(*Client).open")
+	if fn == nil {
+		c.missing(rule, "(*Client).open")
+		return
+	}
+	c.looked("(*Client).open")
+	k := p.Sftp.Const("sshFxfAppend")
+	if k == nil {
+		c.missing(rule, "sshFxfAppend")
+		return
+	}
+	appendBit, _ := constInt(k.Value)
+	var appendEdge *ssa.BasicBlock
+	eachInstr(fn, func(in ssa.Instruction) {
+		bo, ok := in.(*ssa.BinOp)
+		if !ok || (bo.Op != token.NEQ && bo.Op != token.EQL) {
+			return
+		}
+		and, ok := bo.X.(*ssa.BinOp)
+		if !ok || and.Op != token.AND {
+			return
+		}
+		m, isK := constInt(and.Y)
+		if !isK {
+			m, isK = constInt(and.X)
+		}
+		if !isK || m != appendBit {
+			return
+		}
+		cmp, isK := constInt(bo.Y)
+		if !isK {
+			return
+		}
+		for _, r := range *bo.Referrers() {
+			if iff, ok := r.(*ssa.If); ok {
+				set := iff.Block().Succs[0]
+				if (bo.Op == token.EQL) == (cmp != appendBit) {
+					set = iff.Block().Succs[1]
+				}
+				appendEdge = set
+			}
+		}
+	})
+	key := "a File opened for appending starts at the end of the file"
+	if appendEdge == nil {
+		c.bad(rule, key, p.Pos(fn.Pos()), "(*Client).open does not look at the append flag: the File starts at offset 0 while both servers of the package write at the offsets the client sends, so OpenFile(O_WRONLY|O_APPEND) followed by Write overwrites the head of the file and reports success")
+		return
+	}
+	// on the append side: fstat on the handle, and its size stored into File.offset before a File is returned
+	isFstat := func(in ssa.Instruction) bool {
+		cc := callOf(in)
+		return cc != nil && (calleeName(cc) == "fstat" || calleeName(cc) == "Stat")
+	}
+	fromFstat := func(v ssa.Value) bool {
+		for _, l := range leavesOf(v) {
+			if l.Kind == leafCallResult && l.Call != nil && (calleeName(l.Call) == "fstat" || calleeName(l.Call) == "Stat") {
+				return true
+			}
+			if l.Kind == leafFieldLoad && l.Field == "Size" {
+				return true
+			}
+		}
+		return false
+	}
+	isOffsetStore := func(in ssa.Instruction) bool {
+		st, ok := in.(*ssa.Store)
+		if !ok {
+			return false
+		}
+		t, name, _, ok := fieldOf(st.Addr)
+		return ok && typeName(t) == "File" && name == "offset" && fromFstat(st.Val)
+	}
+	asks := !reachFromBlock(appendEdge, func(in ssa.Instruction) bool {
+		r, ok := in.(*ssa.Return)
+		return ok && len(r.Results) == 2 && !isNilConst(r.Results[0])
+	}, isFstat)
+	stored := false
+	eachInstr(fn, func(in ssa.Instruction) {
+		if isOffsetStore(in) && appendEdge.Dominates(in.Block()) {
+			stored = true
+		}
+	})
+	c.check(asks && stored, rule, key, p.Pos(appendEdge.Instrs[0].Pos()), "fstat on the new handle, File.offset = its size",
+		fmt.Sprintf("with the append flag set (*Client).open returns a File without starting it at the file's size (size asked on every path: %v, stored into File.offset: %v): Write then overwrites the head of the file", asks, stored))
 }
